@@ -58,6 +58,7 @@ Inductive sop :=
 | OpApplyBlock (parent_hdr blk_hdr : header) (txs : list tx) (a : option action) (R : roots)
 | OpRestart (blk_hdr : header) (txs : list tx)
 | OpConfirm (hdr_hash : N) (proof : list (N * list N)) (confirmed : bool)
+| OpVotes (epoch : N) (key_votes : list (N * N)) (total : N)          (* StakeSet::votes / total_votes as observed *)
 | OpJump.                                                            (* fabricated state: resynchronise only *)
 
 Record sstep := {
@@ -140,6 +141,8 @@ Definition run_step (SO : stf_oracle) (s : wstate) (st : sstep) : N * wstate :=
   | OpRestart bh txs =>
     fin (Ok (from_block bh txs (s_history s) (s_coins s) (s_counts s) (s_pools s) (s_stakes s))) 0
   | OpConfirm hh proof c => (bit (Bool.eqb (confirm SO s hh proof) c) 2048, s)
+  | OpVotes e kvs tot =>
+    (bit (forallb (fun '(k, v) => votes (s_stakes s) e k =? v) kvs && (total_votes (s_stakes s) e =? tot)) 16, s)
   | OpJump => (0, state_of d)
   end.
 
